@@ -15,6 +15,10 @@ pub struct Step {
     pub alias: bool,
     /// evaluates to a runtime error (always the last step)
     pub fails: bool,
+    /// a tail call at the top level: later steps of the one-program form never run, so the
+    /// property is silent afterwards (the session must nevertheless stay alive)
+    #[serde(default)]
+    pub tailcall: bool,
 }
 
 #[derive(Clone, Debug, Serialize, Deserialize, Default)]
@@ -96,7 +100,7 @@ impl G {
         format!("[{a}, {l}] __binary_concat__")
     }
     fn step(&mut self, rng: &mut Rng) -> Vec<Step> {
-        let s = |src: String| Step { src, alias: false, fails: false };
+        let s = |src: String| Step { src, alias: false, fails: false, tailcall: false };
         let mut out = Vec::new();
         let was_int = self.last_int;
         self.last_int = false;
@@ -108,7 +112,7 @@ impl G {
         }
         if rng.chance(1, 10) {
             let ty = self.fresh("al");
-            out.push(Step { src: format!("'{ty} = ['int, 'bin]"), alias: true, fails: false });
+            out.push(Step { src: format!("'{ty} = ['int, 'bin]"), alias: true, fails: false, tailcall: false });
             self.last_int = was_int;
             return out;
         }
@@ -117,11 +121,34 @@ impl G {
             self.last_int = true;
             return out;
         }
+        if !self.procs.is_empty() && rng.chance(1, 5) {
+            let p = self.procs.remove(rng.usize(self.procs.len()));
+            out.push(s(format!("!{p}")));
+            return out;
+        }
+        if rng.chance(1, 10) {
+            let n = self.fresh("p");
+            out.push(s(format!("{n} = @{{ [{}, 0] spin }}", *rng.pick(&[10u32, 60, 200]))));
+            self.procs.push(n);
+            return out;
+        }
+        if !self.ints.is_empty() && rng.chance(1, 8) {
+            let a = rng.pick(&self.ints).clone();
+            let n = self.fresh("f");
+            out.push(s(format!("{n} = #'int {{ [~, {a}] __integer_add__ }}")));
+            self.fns.push(n);
+            return out;
+        }
+        if !self.fns.is_empty() && rng.chance(1, 6) {
+            let f = rng.pick(&self.fns).clone();
+            out.push(Step { src: format!("{} ^{f}", rng.range(1, 30)), alias: false, fails: false, tailcall: true });
+            return out;
+        }
         match rng.below(28) {
             24 => {
                 // an alias-only step is transparent to the flow: the previous value keeps flowing
                 let ty = self.fresh("al");
-                out.push(Step { src: format!("'{ty} = ['int, 'bin]"), alias: true, fails: false });
+                out.push(Step { src: format!("'{ty} = ['int, 'bin]"), alias: true, fails: false, tailcall: false });
                 self.last_int = was_int;
                 if was_int && rng.chance(1, 2) {
                     out.push(s(format!("[~, {}] __integer_add__", rng.range(1, 9))));
@@ -146,8 +173,8 @@ impl G {
             20 => {
                 // a pattern type whose set of inhabitants grows on later lines
                 let (v, o) = (self.fresh("vv"), self.fresh("opt"));
-                out.push(Step { src: format!("'{v} = 'int | 'bin"), alias: true, fails: false });
-                out.push(Step { src: format!("'{o} = Some['{v}] | None"), alias: true, fails: false });
+                out.push(Step { src: format!("'{v} = 'int | 'bin"), alias: true, fails: false, tailcall: false });
+                out.push(Step { src: format!("'{o} = Some['{v}] | None"), alias: true, fails: false, tailcall: false });
                 let n = self.fresh("of");
                 out.push(s(format!("{n} = #'{o} {{ | =Some[x] => x | 0 }}")));
                 self.optf.push(n);
@@ -271,7 +298,7 @@ impl G {
             }
             16 => {
                 let ty = self.fresh("ty");
-                out.push(Step { src: format!("'{ty} = 'int | 'bin"), alias: true, fails: false });
+                out.push(Step { src: format!("'{ty} = 'int | 'bin"), alias: true, fails: false, tailcall: false });
                 let n = self.fresh("h");
                 out.push(s(format!("{n} = #'{ty} {{ | ='int => 1 | 2 }}")));
                 self.hfns.push(n);
@@ -328,13 +355,13 @@ impl Property for C11 {
     }
     fn cases(&self, tier: Tier) -> usize {
         match tier {
-            Tier::Quick => 300,
-            Tier::Thorough => 3000,
+            Tier::Quick => 600,
+            Tier::Thorough => 4000,
         }
     }
     fn variants(&self, tier: Tier) -> usize {
         match tier {
-            Tier::Quick => 12,
+            Tier::Quick => 16,
             Tier::Thorough => 60,
         }
     }
@@ -351,11 +378,11 @@ impl Property for C11 {
         "cases: a generated list of 3-10 steps (int/binary bindings, shadowing, destructuring, named tuples and field access, functions and closures capturing earlier bindings incl. binaries, type aliases, uses of the flowing previous result, processes that outlive their line and are awaited later, an occasional nil-valued step or final runtime error). References: every prefix is evaluated as ONE program in a fresh environment (value and variables). Variants: a random partition of the steps into lines, rejected lines (parse and compile errors) inserted between them, an optional second session in the same environment, variable reads at random boundaries, each under a sampled schedule/configuration, with the C06 heap monitors on. Non-trivial: >=2 workers, >=1 out-of-order handled message, conclusive. Distinct = distinct (scenario shape + partition, interleaving hash)."
     }
     fn required_probes(&self) -> Vec<&'static str> {
-        vec!["line_value_compared", "vars_compared", "rejected_line_between_accepted", "line_with_several_steps", "second_session_interleaved", "repl_compaction_with_heap_locals", "background_process_awaited_on_later_line"]
+        vec!["line_value_compared", "vars_compared", "rejected_line_between_accepted", "line_with_several_steps", "second_session_interleaved", "repl_compaction_with_heap_locals", "background_process_awaited_on_later_line", "lines_after_top_level_tail_call"]
     }
     fn generate(&self, rng: &mut Rng, _tier: Tier) -> Scenario {
         let mut g = G { ints: vec![], bins: vec![], tuples: vec![], fns: vec![], gfns: vec![], procs: vec![], hfns: vec![], optf: vec![], clsf: vec![], n: 0, last_int: false, lit: 0x20 };
-        let mut steps: Vec<Step> = vec![Step { src: super::c04::SPIN.to_string(), alias: false, fails: false }];
+        let mut steps: Vec<Step> = vec![Step { src: super::c04::SPIN.to_string(), alias: false, fails: false, tailcall: false }];
         let n = 3 + rng.usize(8);
         let mut h = crate::rng::Fnv::default();
         while steps.len() < n + 1 {
@@ -364,20 +391,21 @@ impl Property for C11 {
                 steps.push(s);
             }
         }
-        // occasionally a nil-valued step somewhere, or a failing last step
-        if rng.chance(1, 8) && !g.ints.is_empty() {
-            let pos = 1 + rng.usize(steps.len());
+        // occasionally a nil-valued step in the middle: the steps after it never run in the
+        // one-program form (the property is silent from there on) but the session must stay alive,
+        // also when later bindings of the same line were never reached
+        if rng.chance(1, 5) && !g.ints.is_empty() {
             let a = g.ints[0].clone();
-            if pos >= steps.len() || !steps[pos].alias {
-                // only valid once `a` is bound: put it at the end if unsure
-                steps.push(Step { src: format!("{a} =999999"), alias: false, fails: false });
-                steps.push(Step { src: a.clone(), alias: false, fails: false });
-                h.u64(0x111);
-            }
+            // position: anywhere after the step that binds `a`
+            let bound_at = steps.iter().position(|s| s.src.starts_with(&format!("{a} = ")) || s.src.contains(&format!("[{a}, ")) || s.src.contains(&format!(", {a}] ="))).unwrap_or(steps.len() - 1);
+            let pos = bound_at + 1 + rng.usize(steps.len() - bound_at);
+            let pos = (pos..=steps.len()).find(|p| *p >= steps.len() || (!steps[*p].alias && !steps[*p].src.starts_with("[~"))).unwrap_or(steps.len());
+            steps.insert(pos.min(steps.len()), Step { src: format!("{a} =999999"), alias: false, fails: false, tailcall: false });
+            h.u64(0x111);
         }
         if rng.chance(1, 8) && !g.ints.is_empty() {
             let a = g.ints[0].clone();
-            steps.push(Step { src: format!("[{a}, 0] __integer_divide__"), alias: false, fails: true });
+            steps.push(Step { src: format!("[{a}, 0] __integer_divide__"), alias: false, fails: true, tailcall: false });
             h.u64(0xdead);
         }
         let mut rejected = Vec::new();
@@ -493,10 +521,40 @@ impl Property for C11 {
     fn monitor(&self, _scn: &Scenario) -> Box<dyn Monitor + Send> {
         Box::new(super::c06::HeapMonitor::new("C11"))
     }
+    /// Once a line has evaluated to nil (or left through a top-level tail call, or failed), the
+    /// one-program form never reaches the later steps: bindings of that line that were not reached
+    /// read as nil afterwards, and e.g. awaiting such a "process" blocks the session's own line for
+    /// ever. The statement is silent there (a worker crash would still be reported).
+    fn excuses_hang(&self, scn: &Scenario, r: &RunResult) -> bool {
+        let Ok(e) = serde_json::from_value::<Expect>(scn.expect.clone()) else { return false };
+        for (op, out) in r.ops.iter().zip(r.outs.iter()) {
+            if let ClientOp::Line { session: 0, src } = op {
+                if e.rejected.contains(src) {
+                    continue;
+                }
+                let silent = matches!(out, Out::Value(s) if s == "[]") || matches!(out, Out::RuntimeError(_)) || e.steps.iter().any(|s| s.tailcall && src.contains(&s.src));
+                if silent {
+                    return true;
+                }
+            }
+        }
+        false
+    }
     fn run_probes(&self, scn: &Scenario, r: &RunResult) -> std::collections::BTreeMap<String, u64> {
         let mut m = std::collections::BTreeMap::new();
         let Ok(e) = serde_json::from_value::<Expect>(scn.expect.clone()) else { return m };
         let mut prev_accepted = false;
+        let mut seen_tail = false;
+        for op in &r.ops {
+            if let ClientOp::Line { session: 0, src } = op {
+                if seen_tail && !e.rejected.contains(src) {
+                    *m.entry("lines_after_top_level_tail_call".to_string()).or_insert(0) += 1;
+                }
+                if src.contains(" ^f") {
+                    seen_tail = true;
+                }
+            }
+        }
         for (op, out) in r.ops.iter().zip(r.outs.iter()) {
             match (op, out) {
                 (ClientOp::Line { session: 0, src }, Out::Value(_)) if !e.rejected.contains(src) => *m.entry("line_value_compared".to_string()).or_insert(0) += 1,
@@ -586,7 +644,11 @@ impl Property for C11 {
                         v.push(Violation::new("C11", "line-value", cause, format!("line `{}` (steps {start}..={end}) gave {:?}; the same steps as one program give {:?}", src.chars().take(160).collect::<String>(), out, expected), r.steps));
                         return v;
                     }
-                    if matches!(expected, Out::Value(s) if s == "[]") {
+                    if matches!(expected, Out::Value(s) if s == "[]") || e.steps[start..=end].iter().any(|s| s.tailcall) {
+                        any_nil_before = true;
+                    }
+                    if matches!(out, Out::RuntimeError(_)) {
+                        // the session is reset after a runtime error (as the CLI does)
                         any_nil_before = true;
                     }
                 }
